@@ -16,11 +16,20 @@
                  diff_eqs is not empty (theorem C07_untouched_variable_zero; the guard
                  EveryVariableHasReaction of C07_equiv_partial becomes "some reaction acts on
                  something")
-    tools/c07_switch.py rewrites these two lines and known_findings.d/C07.json consistently. *)
-From Codegen Require Import Codegen.
+    [C07_expected_bind]  (the argument binding of source_tools.py::fn_to_sympy, CallArity.v)
+      BkStrictNonEmpty   `if model_args is not None and len(model_args):` zip(..., strict=True) -- a call
+                 that passes NO argument skips the binding, so a function all of whose parameters
+                 have defaults is "translated" with its parameters left behind as bare symbols
+                 (recorded finding defaulted-parameters-no-arguments; theorem
+                 C07_empty_call_leaks_refuted describes the tree)
+      BkStrict   after fixes/C07-empty-argument-list-strict.diff: `if model_args is not None:` --
+                 the guards "the argument list is not empty" of C07_call_* are void
+    tools/c07_switch.py rewrites these three lines and known_findings.d/C07.json consistently. *)
+From Codegen Require Import Codegen CallArity.
 
 Definition C07_expected_ia : ia_kind := IaFrozen.
 Definition C07_expected_untouched : ut_kind := UtZero.
+Definition C07_expected_bind : bind_kind := BkStrictNonEmpty.
 
 (** the facts of the tree with b1ee1b9, 24c6733, 3b18255 applied, as a function of the two
     switchable ones *)
